@@ -136,6 +136,16 @@ Definition fbank_fr (mel : R -> R) (analytic half : bool) (left mid right rate :
                (tri_left_idx left rate W) (Z.min n (tri_right_idx right rate W + 1)))
     j.
 
+(** * Edges of the Gabor / gammatone banks (constructor lines 711-722, 995-1002):
+   uniformly spaced on the scale, half a step inside [low, high].  [h2s]/[s2h] are the
+   scaling function's hertz_to_scale / scale_to_hertz (gen/Scales.v, property C19);
+   [high] is the effective upper edge (sampling_rate // 2 when high_hz is None). *)
+Definition bank_edge (h2s s2h : R -> R) (low high nf idx : R) : R :=
+  let scale_low := h2s low in
+  let scale_high := h2s high in
+  let scale_delta := (scale_high - scale_low) / (nf + 1) in
+  s2h (scale_low + scale_delta * (idx + 1 / 2)).
+
 (** * Gabor bank (constructor lines 730-776) *)
 Definition gabor_t_support_const (eps : R) (l2 : bool) : R :=
   if l2 then - 2 * ln eps - 1 / 2 * ln PI else - 2 * ln eps - (ln 2 + ln PI).
